@@ -17,6 +17,10 @@ def run(tier):
     n, d = (25, 25) if c.quick() else (120, 40)
     sims.append(kv.simulate(c, "kv-sim", kv.consts(keys="Keys3", invals=("nil", "empty", "x", "y"), exps=("none", "long"), many=2), n, d))
     kv.replay_both(c, emits + sims)
+    # keys that differ only by a trailing '/', patterns ending in '/', records that never expire (year 9999) or are
+    # already expired when written
+    es = kv.emit(c, "kv-slash", kv.consts(keys="KeysT", pats="PatsT", invals=("x",), exps=("none", "far", "past"), many=2), workers=6)
+    kv.replay_both(c, [es])
     # the same contract with time, on the Redis backend only (virtual clock, so it is cheap): what a write
     # stored - including the TTL the server keeps for it - is observed after time has passed
     et = kv.emit(c, "kv-time-redis", kv.consts(pats="Pats2", invals=("x",), exps=("none", "s1", "s3"), maxnow=4), workers=6)
